@@ -99,13 +99,13 @@ func (f Field) OutName() string {
 	return f.Name
 }
 
-func T(k Kind) *TSpec               { return &TSpec{Kind: k} }
-func PtrOf(e *TSpec) *TSpec         { return &TSpec{Kind: KPtr, Elem: e} }
-func SliceOf(e *TSpec) *TSpec       { return &TSpec{Kind: KSlice, Elem: e} }
-func MapOf(k, v *TSpec) *TSpec      { return &TSpec{Kind: KMap, Key: k, Elem: v} }
-func StructOf(fs ...Field) *TSpec   { return &TSpec{Kind: KStruct, Fields: fs} }
-func NamedT(name string) *TSpec     { return &TSpec{Kind: KNamed, Name: name} }
-func Unsup(name string) *TSpec      { return &TSpec{Kind: KUnsup, Name: name} }
+func T(k Kind) *TSpec             { return &TSpec{Kind: k} }
+func PtrOf(e *TSpec) *TSpec       { return &TSpec{Kind: KPtr, Elem: e} }
+func SliceOf(e *TSpec) *TSpec     { return &TSpec{Kind: KSlice, Elem: e} }
+func MapOf(k, v *TSpec) *TSpec    { return &TSpec{Kind: KMap, Key: k, Elem: v} }
+func StructOf(fs ...Field) *TSpec { return &TSpec{Kind: KStruct, Fields: fs} }
+func NamedT(name string) *TSpec   { return &TSpec{Kind: KNamed, Name: name} }
+func Unsup(name string) *TSpec    { return &TSpec{Kind: KUnsup, Name: name} }
 func F(name string, idx int, t *TSpec) Field {
 	return Field{Name: name, Type: t, Plenc: strconv.Itoa(idx), HasPlenc: true}
 }
